@@ -86,7 +86,8 @@ def run(ctx):
                "and so do the others")
     cf = P.field(B, "counter")
     okw = cf.get("bits_size") == 64
-    tick = [d for d in f.local_by_did.values() if d["name"] == "new_value"]
+    from rules import locals_defined_by
+    tick = [f.local_by_did[d] for d in locals_defined_by(f, lambda m: m is op.node) if d in f.local_by_did]
     from rules import type_info
     if tick and (type_info(tick[0]["t"]) or (0,))[0] != 64:
         okw = False
